@@ -2184,6 +2184,7 @@ private:
             if ( delta > 0 && size_t(delta) > my_count ) {
                 if( my_tries > 0 ) {
                     my_future_decrement += (size_t(delta) - my_count);
+                    trim_future_decrement();
                 }
                 my_count = 0;
             }
@@ -2202,6 +2203,12 @@ private:
     friend class threshold_regulator< limiter_node<T, DecrementType>, DecrementType >;
 
     friend class forward_task_bypass< limiter_node<T,DecrementType> >;
+
+    //! The excess of a decrement is kept only for the puts that are still in flight: each of them adds at most one
+    void trim_future_decrement() {  // always called under lock
+        if ( my_future_decrement > my_tries )
+            my_future_decrement = my_tries;
+    }
 
     bool check_conditions() {  // always called under lock
         return ( my_count + my_tries < my_threshold && !my_predecessors.empty() && !my_successors.empty() );
@@ -2244,6 +2251,7 @@ private:
                         }
                     }
                     --my_tries;
+                    trim_future_decrement();
                     my_predecessors.try_consume();
                     if ( check_conditions() ) {
                         if ( is_graph_active(this->my_graph) ) {
@@ -2263,6 +2271,7 @@ private:
         {
             spin_mutex::scoped_lock lock(my_mutex);
             --my_tries;
+            trim_future_decrement();
             if (reserved) my_predecessors.try_release();
             if ( check_conditions() ) {
                 if ( is_graph_active(this->my_graph) ) {
@@ -2378,6 +2387,7 @@ private:
         if ( !rtask ) {  // try_put_task failed.
             spin_mutex::scoped_lock lock(my_mutex);
             --my_tries;
+            trim_future_decrement();
             if (check_conditions() && is_graph_active(this->my_graph)) {
                 d1::small_object_allocator allocator{};
                 typedef forward_task_bypass<limiter_node<T, DecrementType>> task_type;
@@ -2398,6 +2408,7 @@ private:
                 }
             }
             --my_tries;
+            trim_future_decrement();
             // A decrement that arrived while this put was in flight may have made room again:
             // pull from the predecessors that were rejected in the meantime (as forward_task() does)
             if ( check_conditions() && is_graph_active(this->my_graph) ) {
